@@ -8,7 +8,7 @@
 
 use cadence::prelude::*;
 use cadence::{MetricSink, StatsdClient};
-use cadence_macros::{is_global_default_set, set_global_default, statsd_count, statsd_distribution, statsd_gauge, statsd_histogram, statsd_meter, statsd_set, statsd_time};
+use cadence_macros::{get_global_default, is_global_default_set, set_global_default, statsd_count, statsd_distribution, statsd_gauge, statsd_histogram, statsd_meter, statsd_set, statsd_time};
 use std::io;
 use std::sync::{Arc, Mutex};
 
@@ -52,9 +52,30 @@ fn main() {
             }
         }
     });
+    // a second thread sets a client of its own at the same moment (the first set wins, whichever it is), and a third one
+    // keeps asking: whenever `is_global_default_set()` says yes, `get_global_default()` must deliver - "until a set has
+    // completed, reads report that none is set" holds for the pair of global functions as it does for the holder
+    let lines_b = Arc::new(Mutex::new(Vec::new()));
+    let client_b = StatsdClient::builder("mm", Rec(lines_b.clone())).with_tag("dflt", "1").build();
+    let setter_b = std::thread::spawn(move || {
+        // (a LOSING set may return while the winner is still publishing: nothing can be asserted here)
+        set_global_default(client_b);
+    });
+    let checker = std::thread::spawn(|| {
+        for _ in 0..6 {
+            if is_global_default_set() && get_global_default().is_err() {
+                fail("property=C18 is_global_default_set() reported true but get_global_default() found no client: a read reported 'set' before a set had completed".into());
+            }
+            std::thread::yield_now();
+        }
+    });
     set_global_default(client);
-    if !is_global_default_set() {
-        fail("set_global_default returned but is_global_default_set() is false".into());
+    if setter_b.join().is_err() {
+        fail("the second setter died".into());
+    }
+    // both sets have returned: the winner's has completed
+    if !is_global_default_set() || get_global_default().is_err() {
+        fail("property=C18 both set_global_default calls returned but the global client is not set".into());
     }
     // a second set must be ignored
     let other = Arc::new(Mutex::new(Vec::new()));
@@ -90,8 +111,16 @@ fn main() {
     if racer.join().is_err() {
         fail("the racing macro thread died".into());
     }
+    if checker.join().is_err() {
+        fail("the checker thread died".into());
+    }
     let racer_sent = racer_lines.load(std::sync::atomic::Ordering::SeqCst);
-    let mut got = lines.lock().unwrap().clone();
+    // whichever of the two racing setters won: all lines went to ITS client, none to the other's
+    let (la, lb) = (lines.lock().unwrap().clone(), lines_b.lock().unwrap().clone());
+    if !la.is_empty() && !lb.is_empty() {
+        fail(format!("property=C18 both racing setters' clients received lines ({} and {}): two different clients were returned", la.len(), lb.len()));
+    }
+    let mut got = if la.is_empty() { lb } else { la };
     // the racer's lines (0..3 of them, all alike) are accounted for separately
     let racer_seen = got.iter().filter(|l| l.starts_with("mm.racer:")).count();
     if racer_seen != racer_sent {
